@@ -257,6 +257,8 @@ def run(chk):
     # R20.7 what a request leaves in a cache does not depend on the flags of that request
     from . import pyrules
     pyrules.check_conn_cache(chk, 'R20.7')
+    # R20.8 a second rebuild after an edit of the definition re-derives what the first one derived (no compute-once guard on a kernel input)
+    pyrules.check_geometry_closure(chk, 'R20.8')
     chk.explanation = ('derive-before-read typestate over the CFG of every public evaluation method (with kernel attribute reads), '
                        'effect analysis on caller-supplied arrays, in-place scalings, prange write-disjointness')
 
